@@ -232,6 +232,24 @@ Theorem C04_regex_plan_search : forall r p texts rest,
 Proof. exact plan_search. Qed.
 Print Assumptions C04_regex_plan_search.
 
+Example C04_regex_plan_search_example :
+  chain_ok true (rx_re iso_rx) iso_plan = true /\
+  texts_ok iso_plan (iso_texts 2024 2 29 23 59 59 32) (s2b "up") = true /\
+  search (rx_re iso_rx) (concat (iso_texts 2024 2 29 23 59 59 32) ++ s2b "up") =
+    Match (0, mkC 20 (s2b "up") (final_caps iso_plan (iso_texts 2024 2 29 23 59 59 32) (s2b "up") 0)).
+Proof. exact plan_search_example. Qed.
+Print Assumptions C04_regex_plan_search_example.
+
+(* digits+ followed by "-": the greedy first way (all four digits) is the one used *)
+Example C04_regex_first_way_example :
+  let r := RRep 1 None true (RClass false (mkCls false [CPosix false P_digit])) in
+  let s := mkC 0 (s2b "2024-") [] in
+  let s1 := mkC 4 (s2b "-") [] in
+  let k := fun s' : cst => cm cst 6 (RBytes [45]) s' accept in
+  cm cst 6 r s accept = Match s1 /\ k s1 <> NoMatch /\ cm cst 6 r s k = k s1.
+Proof. exact first_way_example. Qed.
+Print Assumptions C04_regex_first_way_example.
+
 (* table obligations on the regenerated ASTs *)
 Theorem C04_regex_no_nullable_star : no_nullable_star_b = true.
 Proof. exact no_nullable_star_ok. Qed.
